@@ -194,9 +194,9 @@ def run(R):
                 if "ok" not in real:
                     fails.append({"why": "find_compound_variants panicked: " + str(real)[:200], "identifier": ident, "search": search, "replace": replace})
                     continue
-                rv = sorted((bytes.fromhex(x["full"]), bytes.fromhex(x["replacement"]), x["style"]) for x in real["ok"])
+                rv = sorted((bytes.fromhex(x["full"]), bytes.fromhex(x["replacement"]), x["style"], int(x["start"]), int(x["end"])) for x in real["ok"])
                 try:
-                    mv = sorted((core.atom_bytes(x[0]), core.atom_bytes(x[1]), x[2]) for x in m)
+                    mv = sorted((core.atom_bytes(x[0]), core.atom_bytes(x[1]), x[2], int(x[3]), int(x[4])) for x in m)
                 except Exception:
                     mv = repr(m)
                 if rv != mv:
